@@ -53,7 +53,7 @@ RULE = ('corpus + directed prefix (witness of every known finding; every schema 
         'objects (bounds / inclusive_bounds / allow_None / item_type) after construction and then assign values valid only under the '
         'edit; another quarter inherit the declaration through a chain of 1-3 classes, use the leaf class, then edit the '
         'Parameters of / assign plain values on one class of the chain; obj.param.schema() (the class\'s for class-level cases) is compared structurally with the model, the '
-        'result of schema(safe=True) (refusal or schema) with the model, the serialized state with the model, accept/reject of every numeric probe with the model; the Lean validator '
+        'result of schema(safe=True) (refusal or schema) and every obj.param[name].schema() with the model, the serialized state with the model, accept/reject of every numeric probe with the model; the Lean validator '
         'judges well-formedness, validation of the state, rejection of out-of-bounds probes. non-trivial = oracle '
         'applicable and (a non-None value of a non-name parameter or an out-of-bounds probe); distinct = distinct canonical case')
 COVERAGE_TARGETS = [f'{t}:value' for t in G.TYPES16] + [f'{t}:nullable' for t in G.TYPES16 if t not in ('Selector', 'ListSelector')] + \
@@ -131,6 +131,8 @@ def run_impl(case):
         types = {d['name']: d['type'] for d in case['params']}
         out = {'invalid': False}
         out['schema'] = _res(lambda: G.enc_fields(obj.param.schema(), {}))
+        # the per-parameter entry point, called the way a user calls it (no arguments)
+        out['param_schemas'] = [[n, _res(lambda: G.enc_tree(obj.param[n].schema()))] for n in names]
         out['schema_safe'] = _res(lambda: G.enc_fields(obj.param.schema(safe=True), {}))
         out['ser'] = _res(lambda: G.enc_fields(json.loads(obj.param.serialize_parameters()), types))
         out['allow_none'] = [[n, bool(obj.param[n].allow_None)] for n in names]
